@@ -19,6 +19,10 @@ class ToGFA1:
     captured_path = self.captured_path
     for i in range(1, len(captured_path), 2):
       edge = captured_path[i].line
+      if not edge.is_dovetail():
+        # a GFA1 path runs over links only: the group has no GFA1 counterpart
+        # (as a set, or an internal alignment)
+        return []
       overlap = edge.overlap
       if not (captured_path[i-1] == edge.oriented_from and
               captured_path[i+1] == edge.oriented_to):
